@@ -334,6 +334,7 @@ class Run:
         self.raised: BaseException | None = None
         self.injected: BaseException | None = None
         self.visible_after: dict[str, Any] = {}
+        self.sub_published: dict[str, Any] = {}
         self.caller_ctx: Any = None
         self.crash: BaseException | None = None
         self.left_exc: BaseException | None = None
@@ -596,6 +597,12 @@ class Run:
                         await anyio.sleep(dur)
                     add_teardown_callback(lambda: run.log("teardown-run", f"sub{sub_id}b"))
                     run.log("teardown-reg", f"sub{sub_id}b")
+                    # the root of the inner tree publishes a resource under the default name: it is a root component with no
+                    # alias of its own, whatever the alias of the component that started it
+                    sub_type = type(f"SubValue{sub_id}", (), {})
+                    obj = sub_type()
+                    add_resource(obj)
+                    run.sub_published[str(sub_id)] = (sub_type, obj)
 
             inner = await start_component(Inner, timeout=None)
             self.log("substarted", path, ok=isinstance(inner, Inner))
@@ -653,6 +660,8 @@ class Run:
                 self.log("window-end", "harness")
                 for ti, T in enumerate(RTYPES):
                     self.visible_after[str(ti)] = dict(ctx.get_resources(T))
+                for sub_id, (sub_type, obj) in self.sub_published.items():
+                    self.visible_after["sub:" + sub_id] = {k: (v is obj) for k, v in ctx.get_resources(sub_type).items()}
                 for path_, inst in self.instances.items():
                     if self.tree["nodes"][path_].get("publishes_self"):
                         self.visible_after["self:" + path_] = dict(ctx.get_resources(type(inst)))
@@ -831,6 +840,13 @@ def check_success(run: Run, *, exact_schedule: bool = True) -> tuple[list[dict[s
             if e["result"] != "ResourceNotFound" or not e.get("immediate"):
                 bad("wait-outside-waited", f"get_resource outside component startup: {e}")
     # ownership: published resources visible in the caller's context; teardown probes run LIFO at exit
+    for sub_id in run.sub_published:
+        got = run.visible_after.get("sub:" + sub_id)
+        if got is not None:
+            inc("resources_of_nested_trees_checked")
+            if got != {"default": True}:
+                bad("start-ownership", f"the root component of the component tree started inside a component (substart {sub_id}) published a resource under the default "
+                                       f"name; the caller's context holds it as {got} (name -> is the published object)")
     for e in ev:
         if e["kind"] == "self-published":
             inc("components_publishing_themselves")
